@@ -1,0 +1,45 @@
+//go:build verif
+
+// Contracts for the deductive verifier in /verif (comment-only file; it
+// contributes no code to any build). Syntax: see /verif/DESIGN.md.
+//
+// Property C19, hierarchicalInstanceNamesBlobAccess.FindMissing: the backend is
+// first asked about the digests as given; what it lacks is then looked for one
+// ancestor name at a time. W (digestsWithParents) is the work list: every
+// entry still has at least one ancestor to ask about, the ancestors of an entry
+// are those of its own digest, and a digest is reported missing only if it has
+// no ancestors at all or if the backend has just reported its last remaining
+// ancestor missing. Failures of the backend end the operation with that error.
+package blobstore
+
+// chainLen(d), chainAt(d, j): the ancestor chain of digest d, least specific
+// first (declared with Digest.GetDigestsWithParentInstanceNames).
+
+// hfmW(w): every entry of the work list has ancestors left to ask about, fewer
+// than its chain is long (the digest itself was asked about first), and they
+// are the first names of its own chain.
+//@ pure hfmW(w) = forall k :: 0 <= k && k < len(w) ==> (len(w[k].parentDigests) >= 1
+//@     && len(w[k].parentDigests) < chainLen(w[k].originalDigest.value)
+//@     && (forall j :: 0 <= j && j < len(w[k].parentDigests) ==> w[k].parentDigests[j].value == chainAt(w[k].originalDigest.value, j)))
+//@ func (*hierarchicalInstanceNamesBlobAccess).FindMissing
+//@   opt contents digestWithParents Digest
+//@   requires ba.BlobAccess != nil
+//@   ensures [backends-failure-ends-the-operation] fmErr(ba.BlobAccess) != nil ==> result1 == fmErr(ba.BlobAccess)
+//@   ensures [no-failure-invented] result1 != nil ==> result1 == fmErr(ba.BlobAccess)
+//@   callrequires (SetBuilder).Add [reported-missing-only-when-no-ancestor-is-left] arg0.digests == finallyMissing.digests ==>
+//@         (chainLen(arg1.value) <= 1 || (born(i) && 0 <= i && i < len(digestsWithParents)
+//@             && digestsWithParents[i].originalDigest.value == arg1.value && len(digestsWithParents[i].parentDigests) == 1
+//@             && has(missingSet, digestsWithParents[i].parentDigests[0])))
+//@   callrequires (SetBuilder).Add [asks-about-the-nearest-ancestor-not-yet-asked] arg0.digests != finallyMissing.digests ==>
+//@         (0 <= rangeindex1 && rangeindex1 < len(digestsWithParents)
+//@             && arg1.value == chainAt(digestsWithParents[rangeindex1].originalDigest.value, len(digestsWithParents[rangeindex1].parentDigests) - 1))
+//@   loop 0 invariant -1 <= rangeindex0 && unchanged(ba.BlobAccess) && fmErr(ba.BlobAccess) == nil
+//@   loop 0 invariant hfmW(digestsWithParents)
+//@   loop 1 invariant unchanged(ba.BlobAccess) && fmErr(ba.BlobAccess) == nil
+//@   loop 1 invariant hfmW(digestsWithParents)
+//@   loop 2 invariant -1 <= rangeindex1 && unchanged(ba.BlobAccess) && fmErr(ba.BlobAccess) == nil
+//@   loop 2 invariant hfmW(digestsWithParents)
+//@   loop 3 invariant -1 <= rangeindex2 && unchanged(ba.BlobAccess) && fmErr(ba.BlobAccess) == nil
+//@   loop 3 invariant hfmW(digestsWithParents)
+//@   loop 4 invariant 0 <= i && i <= len(digestsWithParents) && unchanged(ba.BlobAccess) && fmErr(ba.BlobAccess) == nil
+//@   loop 4 invariant hfmW(digestsWithParents)
